@@ -3,12 +3,12 @@ use super::strings::{
 };
 use super::util::{ignore_comments, opt_spacelike, spacelike2};
 use super::{PResult, Span, input_to_string};
-use crate::sass::{Selector, SelectorPart, Selectors};
+use crate::sass::{SassString, Selector, SelectorPart, Selectors};
 use nom::Parser as _;
 use nom::branch::alt;
 use nom::bytes::complete::tag;
 use nom::character::complete::one_of;
-use nom::combinator::{map, map_opt, map_res, opt, value};
+use nom::combinator::{map, map_opt, map_res, opt, peek, value};
 use nom::multi::{many1, separated_list1};
 use nom::sequence::{delimited, pair, preceded, terminated};
 
@@ -76,7 +76,7 @@ fn selector_part(input: Span) -> PResult<SelectorPart> {
             delimited(
                 terminated(tag("["), opt_spacelike),
                 (
-                    terminated(sass_string, opt_spacelike),
+                    terminated(attribute_name, opt_spacelike),
                     terminated(
                         map_res(
                             alt((
@@ -115,7 +115,7 @@ fn selector_part(input: Span) -> PResult<SelectorPart> {
         map(
             delimited(
                 terminated(tag("["), opt_spacelike),
-                sass_string,
+                attribute_name,
                 preceded(opt_spacelike, tag("]")),
             ),
             |name| SelectorPart::Attribute {
@@ -138,6 +138,20 @@ fn selector_part(input: Span) -> PResult<SelectorPart> {
         ),
         value(SelectorPart::Descendant, spacelike2),
     ))
+    .parse(input)
+}
+
+/// An attribute name, where the namespace prefix may be `*`.
+fn attribute_name(input: Span) -> PResult<SassString> {
+    map(
+        pair(opt(terminated(tag("*"), peek(tag("|")))), sass_string),
+        |(any_ns, mut name)| {
+            if any_ns.is_some() {
+                name.prepend("*");
+            }
+            name
+        },
+    )
     .parse(input)
 }
 
